@@ -217,6 +217,13 @@ func (p *copyProp) Gen(r *Rand, tier string, idx int) any {
 	switch p.id {
 	case "C01":
 		cp.API = pick(r, []string{"Copy", "Copy", "CopyGraph"})
+		if r.Chance(0.15) && cp.DstKind != "file" {
+			// another client stores the root (or some other node) right before this copy's own Push
+			cp.Raced = []int{cp.Root}
+			if r.Chance(0.3) {
+				cp.Raced = append(cp.Raced, r.Intn(len(g.Nodes)))
+			}
+		}
 	case "C02":
 		cp.API = pick(r, []string{"Copy", "CopyGraph", "ExtendedCopyGraph"})
 		cp.NFaults = r.Range(1, 3)
@@ -1183,7 +1190,16 @@ func (p *copyProp) runInBubble(rc *RunCtx, sc *Scenario, cp *CopyParams, g *Grap
 // judgeCopyOnce runs the scenario's copy call once and judges it (C01, C03).
 func (p *copyProp) judgeCopyOnce(rc *RunCtx, env *copyEnv, info *RunInfo, closure func(m *Monitor) []func(Event) *Verdict, before map[int]bool, account func(*copyExec), outcomeCheck func(*copyExec, string) *Verdict) *Verdict {
 	g, cp := env.g, env.cp
-	ex := env.exec(rc, nil, closure, false)
+	var racedFaults []FaultSpec
+	for _, n := range cp.Raced {
+		if n >= 0 && n < len(g.Nodes) {
+			racedFaults = append(racedFaults, FaultSpec{Store: "dst", Op: "Push", Node: n, Occur: 1, Kind: "raced"})
+		}
+	}
+	ex := env.exec(rc, racedFaults, closure, false)
+	if ex.mon.firedK["raced"] > 0 {
+		info.Probes["push_raced_by_another_client"] += ex.mon.firedK["raced"]
+	}
 	account(ex)
 	info.Outcome = string(ex.res.Outcome)
 	if v := outcomeCheck(ex, cp.API); v != nil {
